@@ -126,7 +126,7 @@ def exW : Work Nat (List Nat) (List Nat) where
   compute := fun _ rc => rc.take 2
   render := id
   parse := fun c => .ok c
-  check := fun _ _ => .ok ()
+  check := fun _ _ _ => .ok ()
   score := fun _ z obs => .ok (z.getD [] ++ obs.flatten)
   exportLines := fun _ n obs => n :: obs.flatten
 
